@@ -467,6 +467,15 @@ class Result:
             "violations": len(seen), "known_findings_hit": [t for (_, t) in known_hit],
             "notes": self.notes,
         }
+        # which trees this run looked at
+        def _git(d, *a):
+            try:
+                return subprocess.run(["git", "-C", d] + list(a), stdout=subprocess.PIPE, stderr=subprocess.DEVNULL, timeout=30).stdout.decode().strip()
+            except Exception:
+                return ""
+        cov["source_tree"] = {"repo": REPO, "repo_head": _git(REPO, "rev-parse", "--short", "HEAD"),
+                              "repo_worktree_changes": len([l for l in _git(REPO, "status", "--porcelain", "--untracked-files=no").split("\n") if l.strip()]),
+                              "verif_head": _git(VERIF, "rev-parse", "--short", "HEAD")}
         json.dump(ev, open(os.path.join(evdir, "%s.json" % self.pid), "w"), indent=1)
         return 1 if seen else 0
 
